@@ -3,9 +3,11 @@ from .protoprop import spec
 
 SPEC = spec(
     'C10',
-    ['C10_at_most_one_open_transport', 'C10_open_transport_is_referenced', 'C10_nothing_open_after_request', 'C10_nothing_open_after_close',
+    ['C10_close_transport_is_the_model', 'C10_connection_made_is_the_model', 'C10_connection_lost_is_the_model', 'C10_eof_received_is_the_model',
+     'C10_at_most_one_open_transport', 'C10_open_transport_is_referenced', 'C10_nothing_open_after_request', 'C10_nothing_open_after_close',
      'C10_close_transport_forgets', 'C10_nothing_referenced_after_request', 'C10_transport_opens', 'C10_everything_closed_at_the_end'],
-    text='Coq theorems over ALL runs of the protocol model (any callers, any interleaving of loop callbacks, I/O, timers, OS errors, '
+    text='Refinement theorems re-proved on every run: the model functions used below ARE the current source of the corresponding synchronous methods of protocol.py (translated by tools/cb2v.py into the statement language of Model/Callbacks.v, fail-closed): _close_transport, connection_made, connection_lost, eof_received. '
+         'Coq theorems over ALL runs of the protocol model (any callers, any interleaving of loop callbacks, I/O, timers, OS errors, '
          'close() calls, loop changes, any fault oracle): in every state at most one transport is open (created and not closing); every '
          'open transport is the one the protocol object references or the one being connected by the caller that holds the lock (no '
          'leak); when a request reports to its caller with keep-alive off nothing is open; after close() nothing is open '
